@@ -241,3 +241,115 @@ func VerifC02_History() {
 }
 
 const clockEpoch02 = 946684800
+
+// VerifC02_Concurrent: queries and updates at the same time. One silence exists (its
+// mute verdict possibly cached already); then one (quick) / two (thorough) Mutes calls
+// run concurrently with one update (a new matching silence, expiry, a replicated newer
+// or older version, GC, the alert-GC callback), every interleaving at lock / atomic
+// granularity within the preemption bound. A concurrent verdict is the one before or
+// the one after the update (never a third), and once everything has returned the next
+// verdict and the marker ids equal the direct evaluation of the stored silences again.
+//
+//vf:quick unwind=12 decisions=500 paths=600000 goroutines=6 preempt=1
+//vf:thorough unwind=16 decisions=700 paths=6000000 goroutines=8 preempt=2
+//vf:expect reach=muted reach=not-muted reach=verdict-changed
+func VerifC02_Concurrent() {
+	compat.InitFromFlags(promslog.NewNopLogger(), featurecontrol.NoopFlags{})
+	e := &hEnv02{s: hNew02(time.Hour), mk: marker.NewAlertMarker()}
+	e.sl = NewSilencer(e.s, promslog.NewNopLogger(), e.s.recorder)
+	ctx := context.Background()
+	pair := [][3]int{{0, 0, 1}, {2, 0, 1}, {1, 0, 1}, {3, 2, 0}}[vfChoice("pair", 2+2*vfTier())]
+	lset := hLsets02[pair[1]]
+	now := vfNow()
+	s1 := &pb.Silence{
+		MatcherSets: hMatcherSets02(pair[0]),
+		StartsAt:    timestamppb.New(now.Add(vfSeconds("s1.startIn", 0, 3600))),
+		EndsAt:      timestamppb.New(now.Add(time.Hour + vfSeconds("s1.len", 0, 7200))),
+		Comment:     "one",
+	}
+	vfAssert("create-ok", e.s.Set(ctx, s1) == nil)
+	id1 := s1.Id
+	vfAdvance(vfSeconds("advance", 0, 4*3600))
+	if vfBool("cached") {
+		e.check("warm-up", lset)
+	}
+	now = vfNow()
+	verdict := func() bool {
+		_, active := hOracle02(e.s, lset, now)
+		any := false
+		for _, a := range active {
+			any = vfOr(any, a)
+		}
+		return any
+	}
+	before := verdict()
+
+	op := vfChoice("op", 5)
+	var s2 *pb.Silence
+	var mergeBytes []byte
+	switch op {
+	case 0:
+		s2 = &pb.Silence{
+			MatcherSets: hMatcherSets02(pair[0]),
+			StartsAt:    timestamppb.New(now.Add(vfSeconds("s2.startIn", 0, 3600))),
+			EndsAt:      timestamppb.New(now.Add(time.Hour + vfSeconds("s2.len", 0, 7200))),
+			Comment:     "two",
+		}
+	case 2:
+		base := time.Unix(clockEpoch02, 0).UTC()
+		v := &pb.MeshSilence{
+			Silence: &pb.Silence{
+				Id:          id1,
+				MatcherSets: s1.MatcherSets,
+				StartsAt:    timestamppb.New(base.Add(vfSeconds("mg.start", 0, 12*3600))),
+				EndsAt:      timestamppb.New(base.Add(vfSeconds("mg.end", 0, 24*3600))),
+				UpdatedAt:   timestamppb.New(base.Add(vfSeconds("mg.upd", 0, 12*3600))),
+				Comment:     "merged",
+			},
+		}
+		vfAssume(!v.Silence.EndsAt.AsTime().Before(v.Silence.StartsAt.AsTime()))
+		v.ExpiresAt = timestamppb.New(v.Silence.EndsAt.AsTime().Add(time.Hour))
+		b, err := marshalMeshSilence(v)
+		vfAssert("marshal-ok", err == nil)
+		mergeBytes = b
+	}
+	nq := 1 + vfTier()
+	got := make([]bool, nq)
+	done := make(chan struct{}, nq+1)
+	for q := 0; q < nq; q++ {
+		q := q
+		vfGo("query", func() {
+			got[q] = e.sl.Mutes(marker.WithContext(context.Background(), marker.NewAlertMarker()), lset)
+			done <- struct{}{}
+		})
+	}
+	vfGo("update", func() {
+		switch op {
+		case 0:
+			e.s.Set(ctx, s2)
+		case 1:
+			e.s.Expire(ctx, id1)
+		case 2:
+			if e.s.Merge(mergeBytes) != nil {
+				vfFail("merge-failed")
+			}
+		case 3:
+			e.s.GC()
+		case 4:
+			e.sl.PostGC(model.Fingerprints{lset.Fingerprint()})
+		}
+		done <- struct{}{}
+	})
+	for i := 0; i < nq+1; i++ {
+		<-done
+	}
+	after := verdict()
+	for q := 0; q < nq; q++ {
+		vfAssert("concurrent-verdict-is-the-one-before-or-after-the-update", vfOr(got[q] == before, got[q] == after))
+	}
+	if before != after {
+		vfReach("verdict-changed")
+	}
+	e.check("after-quiescence", lset)
+	e.check("after-quiescence-again", lset)
+}
